@@ -12,7 +12,7 @@ def common_jobs(func_lex, func_gram, why, tier, known, gsub_quick=3389):
     nlexeme, nlex = (12, 2) if q else (12, 3)
     jobs = pipe.jobs_for('vf/ch/layout.py', func_lex, nlexeme, nlex, 300 if q else 2400, extra_subst=ksub, why=None)
     gsub = gsub_quick if q else 211          # a 1/GSUB slice of the 338k grammar scripts, chosen by VERIF_SEED
-    for oi in range(14):
+    for oi in range(15):
         sub = dict({'PART = -1': f'PART = {oi}', 'GSUB = 0': f'GSUB = {gsub}', 'GSEED = 0': f'GSEED = {seed()}'}, **ksub)
 
         def explain(mod, args, why=why):
@@ -47,8 +47,8 @@ def run(tier):
         return {}
     chrun.settle(chk, res, classify=lambda r: 'format:' + (((r.get('explain') or {}).get('why') or 'tokens').split(':')[0]), make_replay=mk)
     chk.level = 'exploration'
-    chk.bounds = dict(grammar=f'a 1/{gsub} slice (VERIF_SEED) of 338 688 scripts of the verification grammar (8 select lists x 6 FROM forms x 7 WHERE x 7 tails x 4 set operations x 4 whitespace fillers x 3 comment positions, every third with a second DML/DDL statement) x 14 option sets',
-                      lexemes=f'{nlexeme} lexemes x {nlex} per script x 14 option sets',
+    chk.bounds = dict(grammar=f'a 1/{gsub} slice (VERIF_SEED) of 544 320 scripts of the verification grammar (10 select lists x 6 FROM forms x 9 WHERE x 7 tails x 4 set operations x 4 whitespace fillers x 3 comment positions, every third with a second DML/DDL statement) x 15 option sets',
+                      lexemes=f'{nlexeme} lexemes x {nlex} per script x 15 option sets',
                       outside='option combinations outside the 14 sets (of 2^9 x widths), indent_width/wrap_after values other than those in the sets; scripts outside the generator')
     chk.extra['rule'] = 'one evaluation = one CrossHair condition (a partition of the script x option space explored to exhaustion); distinct = conditions confirmed over all paths'
     chk.states = len(jobs)
